@@ -426,11 +426,15 @@ def run(tier):
     jobs = [("MC_Polyply", "Pp_full.cfg" if full else "Pp_small.cfg", {"workers": max(2, c.NPROC // 2)}),
             ("PolyplyExport", "Pp_export_full.cfg" if full else "Pp_export.cfg", {"workers": 1})]
     jobs += [("MC_Polyply", cfg, {"workers": 1, "check": False}) for cfg, _, _ in DEVS]
+    if full:
+        jobs.append(("MC_Polyply", "Pp_fail2.cfg", {"workers": max(2, c.NPROC // 2)}))
     res = c.tlc_many(jobs)
     ck.model_must_hold(res[0], LAWS)
     ck.model_must_hold(res[1], "export")
-    for (cfg, inv, what), r in zip(DEVS, res[2:]):
+    for (cfg, inv, what), r in zip(DEVS, res[2:2 + len(DEVS)]):
         ck.model_must_refute(r, inv, what)
+    if full:
+        ck.model_must_hold(res[-1], LAWS + " with two injected failures per behaviour")
     exps = res[1].cases()
     if len(exps) < 300:
         raise c.MachineryError("PolyplyExport produced only %d behaviours" % len(exps))
